@@ -35,7 +35,8 @@ Inductive expr :=
 | EReveal (l : nat) (e : expr).     (* reveal_type(e): identity at run time, probe l *)
 
 Inductive stmt :=
-| SAssign (x : id) (e : expr)
+| SAssign (x : id) (e : expr)         (* x = e, x bound earlier in source order *)
+| SDef (x : id) (e : expr)            (* x = e, the first binding of x in source order (inferred definition) *)
 | SDecl (x : id) (t : ty) (e : expr)
 | SIf (c : expr) (s1 s2 : stmt)      (* elif = SIf in the else position, as in mypy's AST *)
 | SWhile (c : expr) (b : stmt)
